@@ -255,6 +255,7 @@ func checkC17(p *Prog, r *Report) {
 		})
 	}
 	r.Stat("R3.calls under read locks", nRead)
+	r.Pass("R3", "read-locked regions", "", fmt.Sprintf("%d calls made while only a read lock is held were examined; writes to guarded fields under a read lock are reported per field (R1/R3)", nRead))
 
 	// R4/R5
 	lo := BuildLockOrder(p, ls.fns)
